@@ -14,7 +14,7 @@ from vlib.proto import hexs, unhex
 from vlib import paths as vpaths
 from checks import pathgen as pg
 
-LEAN_TARGETS = ["LyModel.Props.C15"]
+LEAN_TARGETS = ["LyModel.Props.C15", "LyModel.Props.C15Typed"]
 AUDIT = "Audit/C15.lean"
 GENERATED = ["PathFmt"]
 ASSUMPTIONS = [
@@ -390,6 +390,7 @@ def run_cases(cx, cases):
                     probes.append((q, val, "key-order"))
                 for _ in range(4):
                     probes.append((pg.mutate_typed(rng, p), pg.value_variants(rng, val), "mutated"))
+            probes += [(p, None, "corpus") for p in c.extra_paths]
             probes = [(p, v, w) for p, v, w in probes if b"$" not in p and b"\x00" not in p and p.lstrip(b" \t\n\r").startswith(b"/")
                       and (v is None or b"\x00" not in v)]
             seen, uniq = set(), []
